@@ -2,8 +2,11 @@
 AuthenticationContent / serialize_well_known_encoding with `RSocketModel.Composite` (tables regenerated from the
 source), on entry lists of every kind at boundary lengths, and on malformed composites."""
 import json
+import os
+import subprocess
+import sys
 
-from harness.core import Prop
+from harness.core import Prop, REPO, VERIF
 
 
 def hx(b):
@@ -126,6 +129,20 @@ def spec_tokens(spec):
     return out
 
 
+_CHILD = r'''
+import sys, json
+sys.modules['cbitstruct'] = None
+sys.path.insert(0, %r); sys.path.insert(0, %r)
+import logging; logging.disable(logging.CRITICAL)
+from harness.props import c18
+import rsocket.frame_helpers as fh
+assert 'cbitstruct' not in dir(fh), 'cbitstruct still importable'
+req = json.load(sys.stdin)
+out = [c18.PROP.run_impl(c) for c in req['cases']]
+json.dump(out, sys.stdout)
+'''
+
+
 class C18(Prop):
     id = 'C18'
     lean_modules = ['RSocketModel.Props.C18']
@@ -137,7 +154,7 @@ class C18(Prop):
                   'entry < 2^24 are part of the limits (the code truncates silently beyond).')
     design_ref = '§5 C18'
     rule = ('lists of 0..6 entries of all six kinds, MIME names well-known (every table row is used, as enum and as bytes) or custom at lengths 1,2,127,128 and out-of-limit '
-            '0,129,200; tags at 0,1,254,255 and out-of-limit 256,300; credentials 0..70 bytes and at the byte boundaries of their length fields (user names of 255..65535 bytes, tokens and item contents of 255..70000 bytes); a third of the lists built through rsocket/extensions/helpers.py; plus truncations / bit flips / random bytes of valid composites; '
+            '0,129,200; tags at 0,1,254,255 and out-of-limit 256,300; credentials 0..70 bytes and at the byte boundaries of their length fields (user names of 255..65535 bytes, tokens and item contents of 255..70000 bytes); a third of the lists built through rsocket/extensions/helpers.py; batches re-run in a sub-process with cbitstruct blocked (struct fallbacks of frame_helpers.py); plus truncations / bit flips / random bytes of valid composites; '
             'non-trivial = at least two entries or a boundary length; distinct = distinct entry list / blob')
     assumptions = ['entries are built through the repo classes; a str-typed encoding is not generated (bytes and enum values are)']
 
@@ -216,6 +233,10 @@ class C18(Prop):
             else:
                 b = bytearray(rng.getrandbits(8) for _ in range(rng.choice([1, 2, 4, 5, 9, 20])))
             out.append({'kind': 'dec', 'blob': bytes(b).hex()})
+        # both bit-packing backends: batches of the cases above, run again with cbitstruct blocked
+        small = [c for c in out if len(json.dumps(c)) < 4000]
+        for _ in range(8 if tier == 'quick' else 60):
+            out.append({'kind': 'backend', 'cases': [rng.choice(small) for _ in range(150)]})
         return out
 
     @staticmethod
@@ -229,6 +250,20 @@ class C18(Prop):
     def run_impl(self, case):
         from rsocket.extensions.composite_metadata import CompositeMetadata
         from rsocket.exceptions import RSocketMimetypeTooLong, RSocketError
+        if case['kind'] == 'backend':
+            # the same batch with the optional cbitstruct extension present (this process) and blocked (a sub-process):
+            # frame_helpers.py falls back to struct-based parse_type / unpack_24bit / ...
+            here = [self.run_impl(c) for c in case['cases']]
+            p = subprocess.run([sys.executable, '-c', _CHILD % (REPO, VERIF)], input=json.dumps({'cases': case['cases']}),
+                               stdout=subprocess.PIPE, stderr=subprocess.PIPE, text=True, timeout=600, env=dict(os.environ, PYTHONPATH=VERIF))
+            if p.returncode != 0:
+                return {'diffs': [{'child-failed': p.stderr[-600:]}], 'n': len(here)}
+            other = json.loads(p.stdout)
+            def canon(o):
+                # which exception a malformed blob fails with is not part of the contract (TypeError from cbitstruct, struct.error from struct)
+                return {k: ('FAIL' if isinstance(v, str) and v.startswith('FAIL:') else v) for k, v in o.items()}
+            diffs = [{'case': c, 'cbitstruct': a, 'native': b} for c, a, b in zip(case['cases'], here, other) if canon(a) != canon(b)]
+            return {'diffs': diffs[:5], 'n': len(here)}
         if case['kind'] == 'enc':
             try:
                 blob = bytes(self._encode(case['items'], case.get('helpers', False)))
@@ -250,6 +285,8 @@ class C18(Prop):
             return {'dec': 'FAIL:' + type(e).__name__}
 
     def model_lines(self, case, obs):
+        if case['kind'] == 'backend':
+            return []
         if case['kind'] == 'enc':
             return ['comp ' + ' '.join(spec_tokens(case['items']))]
         return ['cdec ' + (case['blob'] or '-')]
@@ -261,6 +298,8 @@ class C18(Prop):
         return ('ok ' + ' '.join(dec)).strip() if dec else 'ok '
 
     def compare(self, case, obs, answers):
+        if case['kind'] == 'backend':
+            return None
         a = answers[0]
         if case['kind'] == 'enc':
             if obs['enc'] == 'ERR' or a == 'ERR':
@@ -293,6 +332,10 @@ class C18(Prop):
 
     def oracle(self, case, obs):
         fails = []
+        if case['kind'] == 'backend':
+            for d in obs['diffs']:
+                fails.append({'signature': 'backend-dependent-result', 'what': 'with and without cbitstruct the composite codec disagrees: %s' % json.dumps(d)[:500]})
+            return fails
         if case['kind'] != 'enc':
             return fails
         lim = self._limits(case['items'])
@@ -314,6 +357,8 @@ class C18(Prop):
         return fails
 
     def nontrivial(self, case, obs):
+        if case['kind'] == 'backend':
+            return json.dumps(case, sort_keys=True)[:200] + str(len(json.dumps(case)))
         if case['kind'] == 'enc':
             if len(case['items']) >= 2:
                 return json.dumps(case['items'], sort_keys=True)
@@ -322,6 +367,8 @@ class C18(Prop):
 
     def stats(self, case, obs):
         yield 'kind=' + case['kind']
+        if case['kind'] == 'backend':
+            return
         if case['kind'] == 'enc':
             for s in case['items']:
                 yield 'entry=' + s['k']
@@ -331,6 +378,12 @@ class C18(Prop):
             yield 'decoded=' + ('fail' if isinstance(obs['dec'], str) else 'ok')
 
     def shrink_candidates(self, case):
+        if case['kind'] == 'backend':
+            cs = case['cases']
+            if len(cs) > 1:
+                yield dict(case, cases=cs[:len(cs) // 2])
+                yield dict(case, cases=cs[len(cs) // 2:])
+            return
         if case['kind'] == 'enc':
             it = case['items']
             for i in range(len(it)):
